@@ -283,6 +283,81 @@ def _work_sites(chunk):
     return part.result()
 
 
+# ---- prefix-related dependency family --------------------------------------------------------------------------------
+# The scanned namespace Foo includes FooDep (deps/c15): its NAME starts with "Foo" and it defines Rec, Thing, Kind and
+# Func, i.e. the same short names as the local FooRec / FooKind / FooFunc.  Every function mixes a local and the
+# same-named foreign type in different positions.
+DEP_MENU = [
+    ('dep-param', lambda: Func('foo_use_dep', 'void', [('FooDepRec*', 'd'), ('FooRec*', 'l')])),
+    ('dep-ret', lambda: Func('foo_get_dep', 'FooDepRec*', [('FooRec*', 'l')])),
+    ('dep-ret-local', lambda: Func('foo_get_local', 'FooRec*', [('FooDepRec*', 'd')])),
+    ('dep-enum', lambda: Func('foo_dep_kind', 'FooDepKind', [('FooKind', 'k'), ('FooDepKind', 'dk')])),
+    ('dep-cb', lambda: Func('foo_dep_each', 'void', [('FooDepFunc', 'f'), ('gpointer', 'user_data'), ('FooFunc', 'g'), ('gpointer', 'data')])),
+    ('dep-thing', lambda: Func('foo_dep_thing', 'FooDepThing*', [])),
+    ('dep-out', lambda: Func('foo_dep_out', 'void', [('FooDepRec**', 'd'), ('FooRec**', 'l')])),
+    ('dep-field', lambda: TypedefAnon('FooHolder', [Field('local', 'FooRec*'), Field('dep', 'FooDepRec*'), Field('kind', 'FooDepKind'),
+                                                     Field('emb', 'FooDepRec'), Field('lemb', 'FooRec')])),
+    ('dep-cbtype', lambda: Callback('FooMixed', 'FooDepRec*', [('FooRec*', 'l'), ('FooDepRec*', 'd')])),
+    ('dep-alias', lambda: Typedef('FooDepAlias', 'FooDepRec')),
+    ('dep-list', lambda: Func('foo_dep_list', 'GList*', [('GSList*', 'in')])),
+]
+DEP_COMMENTS = {
+    'dep-list': scanrun.block('foo_dep_list', [('in', '(element-type FooDep.Rec)')], ret=('(element-type FooRec) (transfer container)',)),
+    'dep-out': scanrun.block('foo_dep_out', [('d', '(out)'), ('l', '(out)')]),
+}
+DEPDIR15 = os.path.join(ROOT, 'deps', 'c15')
+
+
+def dep_cases(tier):
+    keys = [k for k, f in DEP_MENU]
+    out = [(k,) for k in keys] + list(itertools.combinations(keys, 2))
+    if tier == 'thorough':
+        out += list(itertools.combinations(keys, 3))
+    return out
+
+
+def build_dep_case(keys):
+    decls = [f() for f in BASE]
+    table = dict(DEP_MENU)
+    decls += [table[k]() for k in keys]
+    number(decls)
+    comments = [scanrun.comment(DEP_COMMENTS[k], line=100 + 40 * i) for i, k in enumerate(keys) if k in DEP_COMMENTS]
+    return decls, comments
+
+
+def _work_dep(chunk):
+    part = Part()
+    asan, cases = chunk
+    b = cbuild.build(asan)
+    wd = tools.workdir('c15d')
+    try:
+        for keys in cases:
+            decls, comments = build_dep_case(keys)
+            r = scanrun.scan(decls, comments, includes=['FooDep-1.0', 'Gio-2.0'], include_paths=[DEPDIR15, DEPS],
+                             shared_libraries=['libfoo.so'])
+            part.add(evaluations=1, states=1, transitions=len(keys))
+            if r.error or r.xml is None:
+                part.outcome(('scanner-error', (r.error or '')[:40]))
+                part.add(unspecified=1)
+                continue
+            if b'FooDep.' not in r.xml:
+                part.violation('harness:dep-reference-missing:%s' % '+'.join(keys), 'the scanned GIR has no FooDep.-qualified reference',
+                               {'dep_keys': list(keys), 'c': fake.c_of(decls)})
+            probs = check_gir(b, r.xml, wd, [DEPDIR15, DEPS], 'Foo-1.0')
+            part.add(traces_validated_against_impl=1)
+            part.nontrivial(repr(keys))
+            part.outcome(('dep', tuple(sorted(set(p[0] for p in probs)))))
+            for kind, text in probs:
+                part.violation('%s:dep:%s|%s' % (kind, '+'.join(keys), norm(text)), text,
+                               {'dep_keys': list(keys), 'c': fake.c_of(decls), 'comments': [c[0] for c in comments]})
+        if cases:
+            d, c = build_dep_case(cases[0])
+            part.sample({'c': fake.c_of(d)[-300:], 'includes': ['FooDep-1.0']})
+    finally:
+        tools.cleanup(wd)
+    return part.result()
+
+
 def corpus_files():
     return sorted(glob.glob(os.path.join(REPO, 'tests', 'scanner', '*-expected.gir')))
 
@@ -369,6 +444,8 @@ def run(ctx):
         ctx.merge(r)
     for r in pmap(_work_sites, [(thorough, c) for c in chunked(rotate(site_cases(), ctx.seed), 32)]):
         ctx.merge(r)
+    for r in pmap(_work_dep, [(thorough, c) for c in chunked(rotate(dep_cases(ctx.tier), ctx.seed), 16)]):
+        ctx.merge(r)
     ctx.assumptions += ['scanner inputs are symbol trees (the C lexer/parser extension cannot be built here)',
                         'miniature deps GIRs; corpus files whose includes are unavailable are skipped and listed',
                         'glibshim (trusted base); decoder vt/typelib.py; expectation derived from the GIR by vt/c/gir2expect.py '
@@ -386,6 +463,15 @@ def replay(ctx, case):
             sdirs = [os.path.join(REPO, 'tests', 'scanner'), os.path.join(REPO, 'gir'), DEPS]
             data = open(case['file'], 'rb').read()
             probs = check_gir(b, data, wd, sdirs, os.path.basename(case['file']).replace('-expected.gir', ''))
+        elif 'dep_keys' in case:
+            decls, comments = build_dep_case(tuple(case['dep_keys']))
+            r = scanrun.scan(decls, comments, includes=['FooDep-1.0', 'Gio-2.0'], include_paths=[DEPDIR15, DEPS],
+                             shared_libraries=['libfoo.so'])
+            print(fake.c_of(decls))
+            if r.xml is None:
+                print('scanner error', r.error)
+                return True
+            probs = check_gir(b, r.xml, wd, [DEPDIR15, DEPS], 'Foo-1.0')
         elif 'site' in case:
             decls, comments = build_site_case(case['site'], case['ann'])
             r = scanrun.scan(decls, comments, includes=['Gio-2.0'], shared_libraries=['libfoo.so'])
